@@ -27,7 +27,7 @@ Singles(u) == { << SD("a", s, p, sh, b) >> : s \in SrcLists(0), p \in AllAccs, s
 SmallShares(n) == { <<>> } \cup { << Share(n \o "_s1", x, d) >> : x \in ShareNums, d \in AllAccs }
 Chains(u) == { << SD("a", s1, p1, sh1, b1), SD("b", s2, p2, sh2, 0) >> :
               s1 \in SrcLists(0), p1 \in AllAccs, sh1 \in SmallShares("a"), b1 \in {0} \cup ShareNums,
-              s2 \in { <<a>> : a \in AllAccs }, p2 \in AllAccs, sh2 \in SmallShares("b") }
+              s2 \in SrcLists(0), p2 \in AllAccs, sh2 \in SmallShares("b") }
 
 \* ---- family "curated": hand-picked shapes, including the hostile ones named in the property ----
 M1 == Mod("m1")  M2 == Mod("m2")  M3 == Mod("m3")
@@ -46,6 +46,12 @@ Curated == {
   << SD("a", <<Main>>, IM, << Share("s1", H, M1) >>, 0), SD("b", <<IM>>, M2, <<>>, 0) >>,     \* INT named like MOD m1
   << SD("a", <<Main>>, M1, << Share("s1", H, IM) >>, 0), SD("b", <<IM>>, M2, <<>>, 0) >>,     \* same, roles swapped
   << SD("a", <<Main>>, I1, <<>>, 0), SD("b", <<I1, M1>>, M2, << Share("s2", Q, M3) >>, Q) >>,  \* internal + swept source
+  \* a destination of an earlier sub-distributor is a source of a later one together with MAIN (its leftover is re-queued in the same block)
+  << SD("a", <<Main>>, I1, << Share("s1", Q, M1) >>, 0), SD("b", <<I1, Main>>, M2, <<>>, 0) >>,
+  << SD("a", <<Main>>, I1, << Share("s1", Q, M1) >>, 0), SD("b", <<Main, I1>>, M2, << Share("s2", Q, B1) >>, Q) >>,
+  << SD("a", <<Main>>, M1, << Share("s1", Q, B1) >>, 0), SD("b", <<M1, Main>>, M2, <<>>, 0) >>,
+  << SD("a", <<Main>>, M1, << Share("s1", Q, B1) >>, Q), SD("b", <<Main, M1>>, M2, << Share("s2", Q, M3) >>, 0) >>,
+  << SD("a", <<Main, B1>>, M1, << Share("s1", Q, M2) >>, 0), SD("b", <<M2, Main>>, M3, <<>>, 0) >>,
   << SD("a", <<Main>>, M1, << Share("s1", Q, M2), Share("s2", Q, M3) >>, Q),
      SD("b", <<M1>>, B1, << Share("s3", H, Main) >>, 0), SD("c", <<Main>>, M3, <<>>, 0) >>      \* 3-chain, README shape
 }
